@@ -28,14 +28,17 @@ impl Head {
         Head { file, bytes }
     }
 
-    pub fn write(&mut self, data: &[u8]) -> Result<(), IoError> {
+    /// Writes `data` behind the `bytes` of the head file and returns the offset of its end.
+    ///
+    /// `bytes` does not move: the caller advances it once the item has its index entry,
+    /// until then the next write starts from the same offset again.
+    pub fn write(&mut self, data: &[u8]) -> Result<u64, IoError> {
         fail_point!("write-head");
         // the handle cached for reads is a dup of this one and shares its cursor,
         // so a retrieval from the head file leaves the cursor in the middle of the file
         self.file.seek(SeekFrom::Start(self.bytes))?;
         self.file.write_all(data)?;
-        self.bytes += data.len() as u64;
-        Ok(())
+        Ok(self.bytes + data.len() as u64)
     }
 }
 
@@ -153,8 +156,12 @@ impl FreezerFiles {
             self.head = Head::new(new_head_file, 0);
         }
 
-        self.head.write(data)?;
-        self.write_index(self.head_id, self.head.bytes)?;
+        let end_offset = self.head.write(data)?;
+        self.write_index(self.head_id, end_offset)?;
+        // the item is frozen only now: had the index write failed, the head must not stay
+        // behind bytes no index entry accounts for, a retry of the append would put the
+        // item after them and its entry would span both
+        self.head.bytes = end_offset;
         self.number.fetch_add(1, Ordering::SeqCst);
 
         if let Some(metrics) = ckb_metrics::handle() {
